@@ -230,6 +230,8 @@ def check_c13(seed, tier):
     for trial in range(8 if tier == "quick" else 80):
         k = rng.randint(1, 8)
         scansar = rng.random() < 0.5
+        if trial == 1:
+            k, scansar = rng.randint(8, 12), True   # ten and more product files: two-digit file numbering in the summary
         combos = list(itertools.product(pols, [m + str(n) for m in "F" for n in range(1, 6)] if scansar else [None]))
         k = min(k, len(combos))
         images = rng.sample(combos, k)
@@ -521,10 +523,26 @@ def check_c14(seed, tier):
     for _ in range(6 if tier == "quick" else 60):
         cfg = {"seed": rng.randrange(10**9), "level": rng.choice(["1.1", "1.5"]), "images": rng.sample([("HH", None), ("HV", None), ("VV", None)], rng.randint(1, 3)),
                "n_lines": 1, "n_pixels": 1, "n_att": 1, "n_chan": 1, "mapproj": None}
+        if _ == 1:
+            # ten and more product files (ScanSAR): the numbered `ProductFileNameNN` keys reach two digits
+            cfg["images"] = [(p_, f"F{n_}") for p_ in ("HH", "HV") for n_ in range(1, 6)]
         prod = products.build(cfg)
         path, clean = products.place(prod, "memory")
+        evals += 1
         try:
-            ref = treecmp.fingerprint_tree(_open(path))
+            t_ref = _open(path)
+            ref = treecmp.fingerprint_tree(t_ref)
+            roles = t_ref["summary/product_information/data_files"].attrs
+            names = [n for n in prod.files if n != "summary.txt"]
+            want_roles = {"volume_directory": [n for n in names if n.startswith("VOL")][0], "sar_leader": [n for n in names if n.startswith("LED")][0],
+                          "sar_imagery": [im.name for im in prod.images], "sar_trailer": [n for n in names if n.startswith("TRL")][0]}
+            got_roles = {k_: (list(v_) if isinstance(v_, (list, tuple)) else v_) for k_, v_ in roles.items()}
+            if got_roles != want_roles:
+                viol.append({"case": {"cfg": cfg}, "what": f"file roles from the numbered ProductFileName entries: {got_roles} != {want_roles}"[:400]})
+        except Exception as e:  # noqa: BLE001
+            viol.append({"case": {"cfg": cfg}, "what": f"a product with a well-formed summary ({len(prod.files) - 1} product files) failed to open: {type(e).__name__}: {e}"[:300],
+                         "key": common.failure_site(e)})
+            continue
         finally:
             clean()
         ref_summary = [n for n in ref if n["path"].startswith("/summary")]
